@@ -30,6 +30,7 @@ class KitClass(object):
         self.signature = None
         self.level = None
         self.is_part = False
+        self.pattern_error = None
 
     @property
     def name(self):
@@ -103,8 +104,13 @@ def describe(p: Program, folder: Folder, lm: LetterMap, ci: ClassInfo, am=None, 
         except Raises as r:
             k.abstract_reason = "structure() raises %s" % r.exc_name
         else:
-            k.pattern = Pattern.parse(k.pattern_text, lm)
             k.concrete = True
+            if "^" in k.pattern_text or "_" in k.pattern_text:
+                # the enzyme's cut markers leaked into the pattern: outside the pattern family, reported by the geometry rule
+                k.pattern = Pattern([], [], k.pattern_text)
+                k.pattern_error = "cut markers (^ _) of the enzyme's elucidated site leaked into the structure: %r" % k.pattern_text
+            else:
+                k.pattern = Pattern.parse(k.pattern_text, lm)
     return k
 
 
